@@ -147,16 +147,16 @@ impl World {
             Ok(Some(g)) => g,
             _ => return "norecord".into(),
         };
-        let (mls_epoch, token, members, mls_name) = match m.load_mls_group(gid) {
+        let (mls_epoch, token, members, mls_name, queued) = match m.load_mls_group(gid) {
             Ok(Some(g)) => {
                 let auth = g.epoch_authenticator().as_slice().to_vec();
                 let n = self.tokens.len();
                 let t = *self.tokens.entry(auth).or_insert(n);
                 let mem: BTreeSet<String> = m.get_members(gid).map(|s| s.iter().map(|p| self.who(p)).collect()).unwrap_or_default();
                 let name = mdk_core::extension::NostrGroupDataExtension::from_group(&g).map(|d| d.name).unwrap_or_default();
-                (g.epoch().as_u64() as i64, t as i64, mem, name)
+                (g.epoch().as_u64() as i64, t as i64, mem, name, g.pending_proposals().count())
             }
-            _ => (-1, -1, BTreeSet::new(), String::new()),
+            _ => (-1, -1, BTreeSet::new(), String::new(), 0),
         };
         let admins: BTreeSet<String> = group.admin_pubkeys.iter().map(|p| self.who(p)).collect();
         let relays: BTreeSet<u64> = m.get_relays(gid).map(|s| s.iter().map(relay_num).collect()).unwrap_or_default();
@@ -218,7 +218,7 @@ impl World {
         let snaps = storage.list_group_snapshots(gid).map(|l| l.len()).unwrap_or(999);
         let rec_sync = if group.epoch as i64 == mls_epoch && group.name == mls_name { "" } else { "!sync" };
         format!(
-            "E{} T{} M[{}] A[{}] N{} D{} I{} R[{}] S{} PA[{}] PR[{}] L{} X[{}] K[{}] Z{}{}",
+            "E{} T{} M[{}] A[{}] N{} D{} I{} R[{}] S{} PA[{}] PR[{}] L{} X[{}] K[{}] Z{}{} Q{}",
             group.epoch,
             token,
             members.into_iter().collect::<Vec<_>>().join(","),
@@ -234,7 +234,8 @@ impl World {
             msgs,
             recs.join(","),
             snaps,
-            rec_sync
+            rec_sync,
+            queued
         )
     }
 
@@ -532,6 +533,40 @@ impl World {
                     None => "err:Craft".into(),
                 }
             }
+            "advupdate" => {
+                // advupdate <i> <tsoff>: member i builds a stand-alone MLS Update PROPOSAL with OpenMLS directly (the MDK
+                // API never sends one), removes it from its own proposal store again, and publishes it like mdk would
+                use openmls::prelude::{LeafNodeParameters, MlsGroup};
+                use openmls_basic_credential::SignatureKeyPair;
+                use tls_codec::Serialize as _;
+                let i = u(t[1]) as usize;
+                let gid = match self.clients[i].gid.clone() { Some(g) => g, None => return "err:NoGroup".into() };
+                let ts = self.t0 + u(t[2]);
+                let mdk = self.clients[i].mdk.take().unwrap();
+                let r: Option<Event> = with_mdk!(&mdk, |m| (|| {
+                    let storage = m.provider.storage();
+                    let rec = m.get_group(&gid).ok()??;
+                    let mut mg = MlsGroup::load(storage, gid.inner()).ok()??;
+                    let own = mg.own_leaf()?.clone();
+                    let signer = SignatureKeyPair::read(storage, own.signature_key().as_slice(), mg.ciphersuite().signature_algorithm())?;
+                    let sec = mg.export_secret(m.provider.crypto(), "nostr", b"nostr", 32).ok()?;
+                    let (msg, _) = mg.propose_self_update(&m.provider, &signer, LeafNodeParameters::default()).ok()?;
+                    let bytes = msg.tls_serialize_detached().ok()?;
+                    let _ = mg.clear_pending_proposals(storage);
+                    let keys = Keys::new(nostr::SecretKey::from_slice(&sec).ok()?);
+                    let content = nostr::nips::nip44::encrypt(keys.secret_key(), &keys.public_key, &bytes, nostr::nips::nip44::Version::default()).ok()?;
+                    EventBuilder::new(Kind::MlsGroupMessage, content)
+                        .tag(Tag::custom(TagKind::h(), [hex::encode(rec.nostr_group_id)]))
+                        .custom_created_at(Timestamp::from(ts))
+                        .sign_with_keys(&Keys::generate())
+                        .ok()
+                })());
+                self.clients[i].mdk = Some(mdk);
+                match r {
+                    Some(ev) => self.push_event(ev),
+                    None => "err:Craft".into(),
+                }
+            }
             "restart" => {
                 let j = u(t[1]) as usize;
                 if self.clients[j].sql_path.is_none() {
@@ -582,7 +617,7 @@ pub fn main(_args: &[String]) -> i32 {
         };
         // fingerprint of the acting client (second token is the client index for client-directed ops)
         let fp = match t[0] {
-            "client" | "kp" | "create" | "welcome" | "accept" | "decline" | "send" | "selfupdate" | "add" | "remove" | "leave" | "data" | "merge" | "clear" | "deliver" | "restart" | "fp" | "advremove" => {
+            "client" | "kp" | "create" | "welcome" | "accept" | "decline" | "send" | "selfupdate" | "add" | "remove" | "leave" | "data" | "merge" | "clear" | "deliver" | "restart" | "fp" | "advremove" | "advupdate" => {
                 let ci = u(t[1]) as usize;
                 if ci < world.clients.len() && world.clients[ci].mdk.is_some() {
                     catch_unwind(AssertUnwindSafe(|| world.fingerprint(ci))).unwrap_or_else(|_| "fp-panic".into())
